@@ -91,8 +91,9 @@ def common(case):
     return dict(cal=cal, utc=case["utc"], **case["sys"])
 
 
-def run_case(case, rec, cid):
-    rec.begin(cid)
+def run_case(case, rec, cid, begin=True):
+    if begin:
+        rec.begin(cid)
     k = case["kind"]
     rnd = random.Random(case.get("seed", 0))
     cm = common(case)
